@@ -780,6 +780,15 @@ func (c *cenv) call(x *CCall) (cval, error) {
 			return cval{fmt.Sprintf("((_ to_fp 11 53) RNE %s)", a[0].s), "FP", nil}, nil
 		}
 		return cval{fmt.Sprintf("((_ to_fp 11 53) RNE (to_real %s))", a[0].s), "FP", nil}, nil
+	case "u2f":
+		a, err := c.args(x, 1)
+		if err != nil {
+			return cval{}, err
+		}
+		if !e.bv {
+			return cval{}, fmt.Errorf("u2f needs ints bv64")
+		}
+		return cval{fmt.Sprintf("((_ to_fp_unsigned 11 53) RNE %s)", a[0].s), "FP", nil}, nil
 	case "f2i":
 		a, err := c.args(x, 1)
 		if err != nil {
